@@ -63,6 +63,19 @@ def main() -> int:
         # happens on the unchanged tree; keeps a code change that makes bellows crash from hiding behind exit 2.
         import re
 
+        # A check that aborts (vacuity floor, canon validation, closure not reached, time limit) AFTER it has already recorded
+        # violations reports those violations: the abort is then a consequence of the misbehaviour, not a harness fault.
+        from mc import report as _report
+
+        cur = _report.CURRENT
+        if cur is not None and not args.replay and cur.prop == prop:
+            known = _report.known_findings(prop)
+            if any(v.key not in known for v in cur.violations):
+                if not cur.coverage:
+                    cur.coverage = {"explanation": "the check aborted after recording violations: " + str(e)[:200], "evaluations": len(cur.violations),
+                                    "distinct_nontrivial": max(2, len(cur.violations))}
+                cur.notes.append("aborted after recording violations: " + str(e)[:300])
+                return cur.finish()
         files = re.findall(r'File "([^"]+)", line (\d+), in (\S+)', text)
         if files and files[-1][0].startswith(repo + "bellows/") and not args.replay:
             from mc import report
